@@ -296,3 +296,94 @@ def depth(t):
     if isinstance(t, N):
         return 1 + depth(t.inner)
     return 0
+
+
+# ---- renaming (a pure change of names: the meaning of the model is the same up to the names) ---------------
+
+
+def rename_types(model, mapping):
+    """Rename structs / unions / aliases.  mapping: {(ns, old): new}.  References, subtype lists, patch targets and the doc
+    references :type:`X` / :field:`X.f` are rewritten; everything else is untouched.  Definitions are re-sorted per file."""
+    import re
+
+    def ref(ns_name, r):
+        target_ns = r.ns or ns_name
+        new = mapping.get((target_ns, r.name))
+        return r._replace(name=new) if new else r
+
+    def texpr(ns_name, t):
+        if isinstance(t, R):
+            return ref(ns_name, t)
+        if isinstance(t, L):
+            return t._replace(item=texpr(ns_name, t.item))
+        if isinstance(t, M):
+            return t._replace(value=texpr(ns_name, t.value))
+        if isinstance(t, N):
+            return t._replace(inner=texpr(ns_name, t.inner))
+        return t
+
+    def doc(ns_name, text):
+        if not text:
+            return text
+
+        def sub(m):
+            tag, val = m.group(1), m.group(2)
+            parts = val.split('.')
+            if tag == 'type':
+                if len(parts) == 2 and (parts[0], parts[1]) in mapping:
+                    parts[1] = mapping[(parts[0], parts[1])]
+                elif len(parts) == 1 and (ns_name, parts[0]) in mapping:
+                    parts[0] = mapping[(ns_name, parts[0])]
+            elif tag == 'field':
+                if len(parts) == 3 and (parts[0], parts[1]) in mapping:
+                    parts[1] = mapping[(parts[0], parts[1])]
+                elif len(parts) == 2 and (ns_name, parts[0]) in mapping:
+                    parts[0] = mapping[(ns_name, parts[0])]
+            return ':%s:`%s`' % (tag, '.'.join(parts))
+        return re.sub(r':(type|field):`([^`]+)`', sub, text)
+
+    def member(ns_name, f):
+        return f._replace(type=texpr(ns_name, f.type) if f.type is not None else None, doc=doc(ns_name, f.doc))
+
+    nss = []
+    for ns in model.namespaces:
+        files = []
+        for f in ns.files:
+            defs = []
+            for d in f.defs:
+                if isinstance(d, Struct):
+                    st = d.subtypes
+                    if st is not None:
+                        st = (st[0], tuple((tag, ref(ns.name, r)) for tag, r in st[1]))
+                    d = d._replace(name=mapping.get((ns.name, d.name), d.name), parent=ref(ns.name, d.parent) if d.parent else None,
+                                   fields=tuple(member(ns.name, x) for x in d.fields), subtypes=st, doc=doc(ns.name, d.doc))
+                elif isinstance(d, Union):
+                    d = d._replace(name=mapping.get((ns.name, d.name), d.name), parent=ref(ns.name, d.parent) if d.parent else None,
+                                   tags=tuple(member(ns.name, x) for x in d.tags), doc=doc(ns.name, d.doc))
+                elif isinstance(d, Alias):
+                    d = d._replace(name=mapping.get((ns.name, d.name), d.name), type=texpr(ns.name, d.type), doc=doc(ns.name, d.doc))
+                elif isinstance(d, Route):
+                    d = d._replace(arg=texpr(ns.name, d.arg), result=texpr(ns.name, d.result), error=texpr(ns.name, d.error), doc=doc(ns.name, d.doc))
+                elif isinstance(d, Patch):
+                    d = d._replace(target=mapping.get((ns.name, d.target), d.target), fields=tuple(member(ns.name, x) for x in d.fields))
+                elif isinstance(d, AnnType):
+                    d = d._replace(params=tuple(member(ns.name, x) for x in d.params), doc=doc(ns.name, d.doc))
+                defs.append(d)
+            files.append(f._replace(doc=doc(ns.name, f.doc), defs=tuple(sorted(defs, key=def_sort_key))))
+        nss.append(ns._replace(files=tuple(files)))
+    return model._replace(namespaces=tuple(nss))
+
+
+def reversed_names(model):
+    """The model with, per namespace and kind (struct / union / alias), the names assigned in reverse alphabetical order:
+    whatever was declared under the first name now carries the last one.  None if nothing changes."""
+    mapping = {}
+    for ns in model.namespaces:
+        for kind in (Struct, Union, Alias):
+            names = sorted(d.name for _, _, _, d in all_defs(model, ns.name) if isinstance(d, kind))
+            for a, b in zip(names, reversed(names)):
+                if a != b:
+                    mapping[(ns.name, a)] = b
+    if not mapping:
+        return None
+    return rename_types(model, mapping)
